@@ -287,6 +287,8 @@ def run_case(case, seed):
         else:
             if model in PHASE_FREE and k != "spectrum":
                 b = _align_phase(ref, got, k, a, b)
+            elif model == "POP" and k != "spectrum":
+                b = _align_own_phase(a, b)
             ds = O.compare_da(a, b, tol, k, attrs=False, name=False)
             if ds and _only_sign_ties(a, b, tol):
                 ds = []
@@ -314,6 +316,22 @@ def _align_phase(ref, got, k, a, b):
     ph = ph.where(abs(ip) > 0, 1.0)
     # X = S V^H is unchanged by S -> S e^{it}, V -> V e^{it}: scores and components carry the same phase
     return b * ph.conj()
+
+
+def _align_own_phase(a, b):
+    """POP patterns are eigenvectors from a general eigen-solver: each is defined up to a (complex) unit factor and no
+    convention of xeofs fixes it; patterns and coefficient series carry opposite factors. Each quantity is aligned by the
+    unit factor per mode that best matches the base node's."""
+    if "mode" not in a.dims or set(a.dims) != set(b.dims):
+        return b
+    try:
+        b2 = b.reindex_like(a).transpose(*a.dims)
+    except Exception:
+        return b
+    other = [d for d in a.dims if d != "mode"]
+    ip = (b2.conj() * a).sum(other)
+    ph = (ip / abs(ip).where(abs(ip) > 0, 1.0)).where(abs(ip) > 0, 1.0)
+    return b2 * ph
 
 
 def _only_sign_ties(a, b, tol):
